@@ -53,6 +53,7 @@ type Config struct {
 	NoInit        []string
 	HavocMax      int  // max length of havoc'd byte slices
 	WallS         int  // wall-clock budget of the whole harness run
+	CrossCheck    bool // second-solver check of the first discharge of every obligation
 	NoAssumeCheck bool // skip the feasibility query after vsAssume (harnesses with hard sat side)
 	Solver        string
 	Expect        map[string]bool // assertion ids expected to fail (known findings) - informational
@@ -79,6 +80,12 @@ type Obligation struct {
 	Proved  int    `json:"proved"`
 	Failed  int    `json:"failed"`
 	Unknown int    `json:"unknown"`
+	// cross-check by a second solver (cvc5, one-shot) of the first non-trivial discharge of this
+	// obligation on each worker: agreed / inconclusive (timeout) counts; a disagreement is reported
+	// as an unknown, never silently dropped
+	CrossAgreed int `json:"cross_agreed,omitempty"`
+	CrossSkip   int `json:"cross_inconclusive,omitempty"`
+	crossed     bool
 }
 
 type Report struct {
@@ -166,12 +173,23 @@ type task struct {
 	after bool
 }
 
+// lockState: a sync.Mutex / sync.RWMutex location as the sequential task model sees it.
+type lockState struct {
+	writer    bool
+	readers   int
+	depth     int    // task nesting depth of the (last) acquisition
+	site      string // where it was acquired
+	untracked bool   // a nested task met it held by an outer one: blocking order not modelled
+}
+
 type Interp struct {
-	Prog *ssa.Program
-	Cfg  *Config
-	C    *smt.Ctx
-	S    *smt.Solver
-	Rep  *Report
+	locks     map[string]*lockState
+	taskDepth int
+	Prog      *ssa.Program
+	Cfg       *Config
+	C         *smt.Ctx
+	S         *smt.Solver
+	Rep       *Report
 
 	// per-path state
 	heap      map[int]*Object
@@ -273,6 +291,9 @@ func NewInterp(prog *ssa.Program, cfg *Config) (*Interp, error) {
 	}
 	if cfg.MaxPaths == 0 {
 		cfg.MaxPaths = 20000
+		if cfg.Tier == "thorough" {
+			cfg.MaxPaths = 1000000
+		}
 	}
 	if cfg.MaxSteps == 0 {
 		cfg.MaxSteps = 5_000_000
@@ -340,6 +361,8 @@ func (in *Interp) resetPath(prefix []int64) {
 	in.tagCount = map[string]int{}
 	in.ufApps = map[string][]ufApp{}
 	in.tasks = nil
+	in.locks = map[string]*lockState{}
+	in.taskDepth = 0
 	in.errIDs = map[string]int{}
 	in.opaqueSeq = 0
 	in.pathCover = map[string]bool{}
@@ -395,6 +418,7 @@ func (in *Interp) runPath(prefix []int64) {
 	in.call(in.Cfg.Harness, nil, nil, "harness")
 	// run remaining "after" tasks
 	in.drainTasks()
+	in.checkLocksReleased()
 }
 
 func appendUniq(l []string, s string) []string {
@@ -537,6 +561,22 @@ func (in *Interp) where() string {
 		return "?"
 	}
 	return in.frames[len(in.frames)-1].fn.String()
+}
+
+// whereLine: the current function with the file:line of the innermost positioned instruction.
+func (in *Interp) whereLine() string {
+	if len(in.frames) == 0 {
+		return "?"
+	}
+	fr := in.frames[len(in.frames)-1]
+	for i := len(in.frames) - 1; i >= 0; i-- {
+		f := in.frames[i]
+		if f.cur != nil && f.cur.Pos().IsValid() {
+			p := in.Prog.Fset.Position(f.cur.Pos())
+			return fmt.Sprintf("%s (%s:%d)", fr.fn.String(), shortFile(p.Filename), p.Line)
+		}
+	}
+	return fr.fn.String()
 }
 
 // choose forks concretely over 0..n-1 (all assumed feasible).
@@ -735,6 +775,19 @@ func (in *Interp) assertCond(cond *smt.Term, id, site string) {
 	switch r {
 	case smt.Unsat:
 		o.Proved++
+		if in.Cfg.CrossCheck && !o.crossed {
+			o.crossed = true
+			script := smt.Script(in.C, append(append([]*smt.Term(nil), in.pc...), neg))
+			switch r2, _, _ := smt.OneShot("cvc5", script, 30); r2 {
+			case smt.Unsat:
+				o.CrossAgreed++
+			case smt.Sat:
+				o.Unknown++
+				in.Rep.Unknowns = appendUniq(in.Rep.Unknowns, "solver disagreement on assertion "+id+" at "+site+": z3 unsat, cvc5 sat")
+			default:
+				o.CrossSkip++
+			}
+		}
 		in.record(1)
 		in.assume(cond)
 		return
